@@ -30,7 +30,7 @@ PROPS = {
         text="Mailbox._help_add_flag/_help_remove_flag/_help_replace_flags/msg_sequences are proved against exact whole-table postconditions over the symbolic sequences dict "
              "(every other message and every other sequence unchanged; Seen/unseen kept complementary for the touched message; \\Recent preserved by FLAGS replacement), and "
              "constants.flag_to_seq/seq_to_flag against the system-flag table. Two genuine defects (F05 keyword atoms aliasing system sequences, F06 case-sensitive system flags) are "
-             "recorded as known findings; the obligations are proved for every input outside those two characterised classes.",
+             "recorded as known findings; the obligations are proved for every input outside those two characterised classes. Proved since: Mailbox.store itself - for every message set of existing positions, every flag list (repetitions allowed) and each of +FLAGS / -FLAGS / FLAGS, the flags of exactly the addressed messages change to exactly what the command says (\\Seen and the MH `unseen` sequence kept complementary, \\Recent never touched, STORE of \\Recent refused with NO and nothing changed), .mh_sequences is rewritten to the same content, the change is committed (ghost rows) and one FETCH is produced per message; nested loop invariants over the real loops, composed from the three helper contracts.",
         note="Level is 'other' while known findings are open. Mailbox.store/fetch tail/append and notification delivery are not yet under contract (clauses d-g of DESIGN C04). Trusted: z3, PyVC encoding.",
         assumptions=["z3 sound", "PyVC encoding (DESIGN 2.2): defaultdict(set) reads insert the default; set/dict iteration order arbitrary"],
         not_decided="store()/fetch()/append() call sites and cross-session notification (clauses d-g) are not decided yet",
@@ -141,7 +141,7 @@ PROPS = {
         category="other",
         text="Proved for all mailbox states and any number of sessions: _dispatch_or_pend_notifications gives every selected session except the excluded one exactly the notifications, in order, once - pushed if idling, otherwise appended behind what is already queued; "
              "every '* n EXPUNGE' expunge() emits carries n = position+1 of the message being removed in the list as it is at that moment (1 <= n <= size before removal), highest first, with the text equal to that number; "
-             "after the recorded fix, check_new_msgs_and_flags announces a new EXISTS count directly only to sessions with an empty queue (or idling) and otherwise queues it behind the pending EXPUNGEs. Proved since: pending_expunges() is true exactly when ANY queued notification is an EXPUNGE; send_pending_notifications sends the whole queue in order and empties it; Mailbox.selected reports EXISTS == len(msg_keys) and registers the session in the same step (no await in between); Authenticated.do_select has an empty queue when that snapshot is taken (call-site assertion), reports exactly READ-ONLY/READ-WRITE, and leaves the session deselected when it fails.",
+             "after the recorded fix, check_new_msgs_and_flags announces a new EXISTS count directly only to sessions with an empty queue (or idling) and otherwise queues it behind the pending EXPUNGEs. Proved since: pending_expunges() is true exactly when ANY queued notification is an EXPUNGE; send_pending_notifications sends the whole queue in order and empties it; Mailbox.selected reports EXISTS == len(msg_keys) and registers the session in the same step (no await in between); Authenticated.do_select has an empty queue when that snapshot is taken (call-site assertion), reports exactly READ-ONLY/READ-WRITE, and leaves the session deselected when it fails. The gate in front of FETCH, STORE and SEARCH is proved on the real handlers (up to the point where they queue on the mailbox): a sequence-numbered command only starts when no EXPUNGE is queued for the session and has sent none on the way in; when it is refused with NO nothing is sent and nothing is dropped from the queue.",
         note="Partial: the linking invariant between each session's replayed view and the server list across whole histories (DESIGN J), the pending_expunges() gates in do_fetch/do_store/do_search and selected() are not under contract; "
              "the whole-history statement is covered only by the bounded view-replay oracle (156 scripted two-session histories).",
         assumptions=["z3 sound", "PyVC encoding (DESIGN 2.2)", "ClientProxy.push hands data to the socket in order (A-ASYNC)", "distinct sessions are distinct objects (class invariant clients-injective)"],
@@ -227,9 +227,9 @@ PROPS = {
         design_ref="DESIGN.md 7 C11",
         technique="contract-based deductive verification (PyVC + z3) with crash obligations: a crash invariant over ghost (committed, pending) database state at every await of Database.apply_migrations; the restart resync verified WITHOUT environment assumption E1 (check_new_msgs_and_flags#recovery: any files may be missing or added); commit_to_db verified against a ghost model of the mailbox's rows with each SQL statement an assumed contract pinned to its text; three kill oracles on the real process (bounded)",
         category="other",
-        text="(a) At every point where the process can be suspended or killed inside Database.apply_migrations, the durable state satisfies 'durably applied migrations == durable version rows' (recorded fix: each migration and its version row are one transaction; before, 11 of 22 kill points left a database that could never be opened again). (e, f) Whatever the folder looks like after a kill - files removed, files added, both - the resync that runs on restart never lowers UIDNEXT, keeps UIDNEXT above every UID in the list, and every UID in the rebuilt list is either bound to the message key it was bound to or is fresh (>= the old UIDNEXT): proved for all restored states satisfying the representation invariant, with one stated fact of finite arithmetic (pigeonhole). (d) Mailbox.commit_to_db, which every command runs before its tagged reply, is proved to leave this mailbox's committed rows equal to its UID state and to exactly its non-empty flag sequences, touching no other mailbox's rows (ghost model of the two tables; the SQL statements are assumed contracts tied to their exact text). Bounded: the real process is killed before every SQL statement of a first start; after removing any subset of message files and/or adding one behind the server's back (16 cases); and after 1-3 acknowledged flag-changing commands on two mailboxes (60 histories) - then restarted and compared.",
+        text="(a) At every point where the process can be suspended or killed inside Database.apply_migrations, the durable state satisfies 'durably applied migrations == durable version rows' (recorded fix: each migration and its version row are one transaction; before, 11 of 22 kill points left a database that could never be opened again). (e, f) Whatever the folder looks like after a kill - files removed, files added, both - the resync that runs on restart never lowers UIDNEXT, keeps UIDNEXT above every UID in the list, and every UID in the rebuilt list is either bound to the message key it was bound to or is fresh (>= the old UIDNEXT): proved for all restored states satisfying the representation invariant, with one stated fact of finite arithmetic (pigeonhole), which is itself proved in Lean 4 + Mathlib (lean/Pigeonhole.lean, re-checked by this check). (d) Mailbox.commit_to_db, which every command runs before its tagged reply, is proved to leave this mailbox's committed rows equal to its UID state and to exactly its non-empty flag sequences, touching no other mailbox's rows (ghost model of the two tables; the SQL statements are assumed contracts tied to their exact text). Bounded: the real process is killed before every SQL statement of a first start; after removing any subset of message files and/or adding one behind the server's back (16 cases); and after 1-3 acknowledged flag-changing commands on two mailboxes (60 histories) - then restarted and compared.",
         note="Partial: crash points INSIDE commit_to_db, append, copy, expunge, pack, rename, delete are not enumerated by any obligation; the argument for (b), (c) is 'every command commits before it replies' (commit_to_db's contract) plus sqlite's atomic COMMIT (A-DB). Observation O1 (DESIGN 12.4): a kill between a file removal and the commit, with a delivery in the same window, leaves a listed message without a file.",
-        assumptions=['z3 sound', 'PyVC encoding', 'A-DB: sqlite DDL is transactional inside BEGIN..COMMIT, durable at once outside; COMMIT is atomic; each reviewed SQL statement does what its contract says', 'pigeonhole fact stated as a precondition of the recovery contract', 'codec round trip of compact_sequence/expand_sequence (bounded tier)'],
+        assumptions=['z3 sound', 'PyVC encoding', 'A-DB: sqlite DDL is transactional inside BEGIN..COMMIT, durable at once outside; COMMIT is atomic; each reviewed SQL statement does what its contract says', 'the pigeonhole and counting facts stated as preconditions are proved in lean/Pigeonhole.lean (trusted: Lean kernel, Mathlib; the correspondence between the Lean statement and the contract clause is by inspection)', 'codec round trip of compact_sequence/expand_sequence (bounded tier)'],
         not_decided='(b), (c) beyond commit-before-reply; crash points inside the multi-step mailbox operations',
     ),
     "C08": dict(
